@@ -45,13 +45,19 @@ def real_rows(rows, ncol, D, scale):
     return a[:, :ncol]
 
 
-def load(source, arr, tmpdir):
+def load(source, arr, tmpdir, layout=None):
+    """layout: the line records of spec/TextFile.tla (text source only): the rows are written line by line in the number
+    styles, with the comment / blank lines, the specification chose; default: numpy.savetxt."""
     A, O, T = _klasses()
     if source == 'array':
         return A(arr.copy())
     if source == 'text':
         path = os.path.join(tmpdir, 'obs.dat')
-        np.savetxt(path, arr, fmt='%.17g')
+        if layout is None:
+            np.savetxt(path, arr, fmt='%.17g')
+        else:
+            from .. import fx_textfile
+            fx_textfile.write_text(path, arr, layout)
         return O(path)
     if source == 'hdf5':
         import h5py
@@ -116,16 +122,20 @@ def binner_check(obs, o):
     return np.array_equal(out[0], o['wn']), np.array_equal(out[3], o['wid']), aligned, binned
 
 
-def judge_vector(ctx, vec, perm, source, scale, tmpdir, ref):
+def judge_vector(ctx, vec, perm, source, scale, tmpdir, ref, layout=None, lcls=None):
     rows, ncol, ex = vec['rows'], vec['ncol'], vec['exp']
     n = len(rows)
     prow = [rows[i] for i in perm]
     ident = list(perm) == list(range(n))
-    cls = '%s:%dcol:%s' % (source, ncol, 'sorted-asc-wl' if ident else 'permuted')
+    cls = '%s:%dcol:%s' % (source, ncol, 'sorted-asc-wl' if ident else 'permuted') + (':lines=' + lcls if lcls else '')
     meta = dict(vec, perm=list(perm), source=source, scale=scale)
+    if layout is not None:
+        meta.update(layout=layout, lcls=lcls)
     try:
-        obs = load(source, real_rows(prow, ncol, 1, scale), tmpdir)
+        obs = load(source, real_rows(prow, ncol, 1, scale), tmpdir, layout)
         o = observe(obs)
+    except Machinery:
+        raise
     except Exception as exn:
         ctx.verdict('rows_stay_together', False, cls=cls, detail='exception %r' % exn, vector=meta)
         return None
@@ -205,6 +215,31 @@ def run_vectors(ctx, vecs, rng, perm_cap, one_file_source=False):
                     o = judge_vector(ctx, vec, perm, source, scale, tmpdir, ref)
                     if ref is None:
                         ref = o
+
+
+def run_text_layouts(ctx, files, vecs, rng):
+    """The text source over the LINES of the file (spec/TextFile.tla): every exported file layout (number style of each data
+    row, comment and blank lines anywhere) carries the rows of an exported vector with as many rows, in a row order that
+    rotates through all permutations; wavelengths k/16 and k/8 um (below one micron: a number written without the zero before
+    the point starts with '.').  The loaded object must be the specification's exact one for those rows -- every clause."""
+    from .. import fx_textfile
+    by_n = {}
+    for v in vecs:
+        by_n.setdefault(len(v['rows']), []).append(v)
+    done = 0
+    with tempfile.TemporaryDirectory(prefix='c17t_') as tmpdir:
+        for i, t in enumerate(files):
+            n = len(t['rows'])
+            if n not in by_n:
+                raise Machinery('no exported vector with %d rows for the text layout %r' % (n, t['lines']))
+            vec = by_n[n][(i * 7 + ctx.seed) % len(by_n[n])]
+            perms = list(itertools.permutations(range(n)))
+            perm = perms[(i + ctx.seed) % len(perms)]
+            # every wavelength of the exported vectors is <= 12: scale 16 puts all of them below one micron
+            judge_vector(ctx, vec, perm, 'text', 16, tmpdir, None, layout=t['lines'], lcls=fx_textfile.layout_class(t))
+            done += 1
+    ctx.traces += done
+    return done
 
 
 # ----------------------------------------------------------------------------
@@ -475,6 +510,92 @@ def run_binner_histories(ctx, only=None):
         ctx.add_sample(dict(binner_history=walks[-1]['ops'], exposes=walks[-1]['flux']))
 
 
+# ----------------------------------------------------------------------------
+# histories of the holders of an observation and its binner (spec/ObsHolder.tla)
+# ----------------------------------------------------------------------------
+HOLD_CLAUSE = dict(exposed='binner_stays_on_observation', values='model_binned_over_own_centre_and_width')
+
+
+class _Deferred:
+    """Stands in for ctx while TLC generates in a background thread; the add_tlc calls are replayed on ctx afterwards."""
+
+    def __init__(self, ctx):
+        self.seed, self.tier, self.calls = ctx.seed, ctx.tier, []
+
+    def add_tlc(self, *a, **k):
+        self.calls.append((a, k))
+
+    def flush(self, ctx):
+        for a, k in self.calls:
+            ctx.add_tlc(*a, **k)
+
+
+def run_obs_holders(ctx, only=None, generated=None):
+    """The last sentence over the HOLDERS of an observation: the library's Optimizer is given an observation (constructor
+    keyword, set_observed), bins the model to it and compares / stores it (chisq_trans, generate_solution with its
+    contributions), is given another observation, ...; a second holder lives in the same process.  Whenever a holder bins
+    the model it bins onto the observation it holds now: binned centres / widths are that observation's, the binned model and
+    chi-squared are TLC's exact ones for it, and the use returns what a freshly built holder of that observation returns."""
+    from .. import fx_obsholder as OH
+    import taurex.log as tlog
+    from taurex.log.logger import root_logger
+    q = ctx.tier == 'quick'
+    table, walks = generated if generated is not None else OH.generate(ctx, thorough=not q)
+    if only is not None:
+        walks = [dict(acts=v['acts'], held=v['held'], kills=[], src='replay') for v in only]
+    unit = (only[0].get('unit') if only else None) or (8.0, 16.0, 32.0, 64.0)[ctx.seed % 4]
+    sources = ['array', 'text', 'hdf5']
+    saved = (tlog.last_log, root_logger.level)
+    tlog.setLogLevel(60)                     # generate_solution() re-enables logging at the last set level
+    n = 0
+    try:
+        with tempfile.TemporaryDirectory(prefix='c17o_') as tmpdir:
+            src = {}
+
+            def load_obs(o, rows):
+                d = os.path.join(tmpdir, 'o%d' % o)
+                os.makedirs(d, exist_ok=True)
+                src[o] = sources[(o + ctx.seed) % 3]
+                return load(src[o], rows, d)
+            try:
+                world = OH.World(table, unit, load_obs)
+            except Machinery:
+                raise
+            except Exception as exn:
+                ctx.verdict('rows_stay_together', False, cls='holder:observations', detail='exception %r' % exn, vector=dict(obs_holder=True, acts=[], held=[], unit=unit))
+                return
+            off = [o for o, e in world.exp.items() if e is None]
+            if off and not ctx.has_violations():
+                raise Machinery('holder observations %r are not on the bins of the alphabet' % (off,))
+            for w, problems in OH.replay(world, walks):
+                n += 1
+                acts = w['acts']
+                vec = dict(obs_holder=True, acts=acts, held=w['held'], unit=unit)
+                by = {}
+                for j, tag, detail in problems:
+                    by.setdefault(HOLD_CLAUSE.get(tag, 'binner_history_independent'), (j, tag, detail))
+                for c in sorted({'binner_stays_on_observation', 'binner_history_independent', 'model_binned_over_own_centre_and_width'} | set(by)):
+                    if c in by:
+                        j, tag, detail = by[c]
+                        a = acts[j]
+                        ctx.verdict(c, False, cls='holder:optimizer:%s(O%d from %s):%s' % (a['u'] if a['a'] == 'use' else a['a'], w['held'][j], src.get(w['held'][j], '-'), OH.situation(acts, j)),
+                                    vector=vec, detail='%s: step %d (%s) -- %s' % (OH.trail(acts), j + 1, tag, detail))
+                    else:
+                        ctx.verdict(c, True, cls='holder:optimizer:history', vector=vec)
+            ncan = 0
+            if only is None and not ctx.has_violations():
+                ncan = OH.canary(world, walks)
+    finally:
+        tlog.last_log = saved[0]
+        root_logger.setLevel(saved[1])
+    if only is None:
+        ctx.traces += n
+        ctx.note('observation holders: %d histories (%d short ones on one Optimizer: every pair of observations given with a use in between; %d random ones on two) '
+                 'of constructor / set_observed / chisq_trans / generate_solution over 3 observations (array, text, hdf5; 4, 4 and 3 bins); '
+                 'canary: %d histories on the harness\'s own unsound holders' % (n, sum(1 for w in walks if w['src'] == 'short'), sum(1 for w in walks if w['src'] == 'walk'), ncan))
+        ctx.add_sample(dict(holder_history=OH.trail(walks[-1]['acts']), exposes=walks[-1]['kills']))
+
+
 def run(ctx):
     q = ctx.tier == 'quick'
     t = ctx.tier
@@ -494,6 +615,14 @@ def run(ctx):
                        'binner histories: wavelengths 10000/c and widths w wl^2/10000 put the loaded bins on the lattice bins (c, w) of the alphabet up to rounding (checked at 1e-12 / 1e-9); '
                        'binned values compared with TLC\'s exact ones at 1e-9, exposed centres / widths and fresh-binner results bit for bit',
                        'model binned to the observation: the native model tiles an interval containing every observation bin (partial coverage is property C05); binned values compared at 1e-9 relative (vectors) / 2e-3 absolute on values 0..20 (traces)']
+    # TLC generates the text files and the holder histories (small single-worker runs) while the runs below are under way
+    from concurrent.futures import ThreadPoolExecutor
+    from .. import fx_textfile, fx_obsholder
+    bg = ThreadPoolExecutor(max_workers=2)
+    dtext, dhold = _Deferred(ctx), _Deferred(ctx)
+    fut_text = bg.submit(fx_textfile.generate, dtext, not q)
+    fut_hold = bg.submit(fx_obsholder.generate, dhold, not q)
+    bg.shutdown(wait=False)
     for c in ('4col', '3col'):
         ctx.check_spec('exhaustive-' + c, 'MC_Observation', 'MC_Observation_%s_%s.cfg' % (c, t), need_actions=('LoadRows',) if c == '4col' and q else ())
     for c in ('4gen', '3gen'):
@@ -510,15 +639,28 @@ def run(ctx):
     rng = random.Random(ctx.seed * 131 + 17)
     sfx = '' if q else '_thorough'
     nv = 0
+    allvecs = []
     for c in ('4col', '3col'):
         res = ctx.check_spec('export-' + c, 'MC_Observation', 'EX_Observation_%s%s.cfg' % (c, sfx), workers=1)
         vecs = res.tagged('VEC')
         if not vecs:
             raise Machinery('no vectors exported for ' + c)
         nv += len(vecs)
+        allvecs += vecs
         run_vectors(ctx, vecs, rng, 24 if q else 40)
         ctx.add_sample(dict(vector=vecs[len(vecs) // 2]))
     ctx.note('%d exported vectors replayed in every row order through array / text / hdf5 sources' % nv)
+    # the text source over the lines of the file: number styles, comment and blank lines (spec/TextFile.tla)
+    if max(r[0] for v in allvecs for r in v['rows']) > 15:
+        raise Machinery('exported wavelengths exceed 15: scale 16 does not put them below one micron')
+    import time as _time
+    t0 = _time.time()
+    tfiles = fut_text.result()
+    dtext.flush(ctx)
+    nt = run_text_layouts(ctx, tfiles, allvecs, rng)
+    t_text = _time.time() - t0
+    ctx.note('%d text files (every arrangement of 2%s data rows x 6 number styles with at most one comment / blank line + TLC-simulated files of 2-4 rows) '
+             'loaded through ObservedSpectrum, wavelengths below one micron' % (nt, '' if q else '-3'))
     res = ctx.check_spec('export-model', 'MC_ObsBin', 'EX_ObsBin%s.cfg' % sfx, workers=1)
     vecs = res.tagged('VEC')
     v4 = [v for v in vecs if v['ncol'] == 4]
@@ -533,17 +675,26 @@ def run(ctx):
     ctx.add_sample(dict(vector={k: v4[len(v4) // 2][k] for k in ('rows', 'ncol', 'nat', 'f', 'modA', 'geoA')}))
     ctx.note('%d exported (rows, native model, exact binned model) vectors: narrow channels and broad bands, every row order' % nm)
     run_traces(ctx, 150 if q else 1500)
+    t0 = _time.time()
     run_binner_histories(ctx)
+    t1 = _time.time()
+    generated = fut_hold.result()
+    dhold.flush(ctx)
+    run_obs_holders(ctx, generated=generated)
+    ctx.note('wall: text files %.1f s, binner histories %.1f s, observation holders %.1f s' % (t_text, t1 - t0, _time.time() - t1))
 
 
 def replay(ctx, violations):
     hist = [v['vector'] for v in violations if v['vector'] and v['vector'].get('binner_history') and v['vector'].get('ops')]
     if hist:
         run_binner_histories(ctx, only=hist)
+    held = [v['vector'] for v in violations if v['vector'] and v['vector'].get('obs_holder') and v['vector'].get('acts')]
+    if held:
+        run_obs_holders(ctx, only=held)
     with tempfile.TemporaryDirectory(prefix='c17_') as tmpdir:
         for v in violations:
             vec = v['vector']
-            if not vec or vec.get('binner_history'):
+            if not vec or vec.get('binner_history') or vec.get('obs_holder'):
                 continue
             if vec.get('trace'):
                 nv = vec.get('native')
@@ -556,5 +707,8 @@ def replay(ctx, violations):
                 ctx.verdict('trace_widths_edges_reading', reading != 'none', cls=cls, detail='reading %s' % reading, vector=vec)
             else:
                 n = len(vec['rows'])
+                if vec.get('layout'):
+                    judge_vector(ctx, vec, vec['perm'], vec['source'], vec['scale'], tmpdir, None, layout=vec['layout'], lcls=vec.get('lcls'))
+                    continue
                 ref = judge_vector(ctx, vec, list(range(n)), vec['source'], vec['scale'], tmpdir, None)
                 judge_vector(ctx, vec, vec['perm'], vec['source'], vec['scale'], tmpdir, ref)
